@@ -207,14 +207,19 @@ def compare(ctx, cases, drv):
             ctx.count("impl_error", r["__error__"])
             problems.append((c, f"real code raised {r['__error__']}: {r['text'][:300]}", True))
             continue
-        if "error" in m:
-            raise RuntimeError("model driver error: " + m["error"])
+        if "error" in m and ctx.lean.ok:
+            raise core.HarnessError("model driver error: " + m["error"])
         if fragile(c):
             ctx.count("excluded", "weight threshold within 1e-12 of an edge probability / SQLite misreads a threshold literal")
             continue
         v = verdict(c, r)
         if v is not None:
             problems.append((c, v, True))
+            continue
+        if "error" in m:
+            # the translated part of the model could not be regenerated from the current source (already recorded as a broken
+            # obligation): no model answer; the independent oracle above still decides the property on the real output
+            ctx.count("model_unavailable", m["error"][:80])
             continue
         # model vs impl
         mcols = [sorted((order[a], order[b]) for a, b in res_["rows"]) for res_ in m["results"]]
